@@ -7,14 +7,16 @@ from harness.common import struct_hash
 from harness.ns import QNAMES
 
 ID = "C14"
-LEAN_MODULES = ["Pypika.Props.C14", "Pypika.Props.Builder"]
+LEAN_MODULES = ["Pypika.Props.C14", "Pypika.Props.Builder", "Pypika.Props.DDLBuilder"]
 TRACE_BUILDER = True   # builder calls made by this check are also run through Pypika.B.step (harness/trace.py)
 THEOREMS = ["Pypika.C14.join_guard_iff", "Pypika.C14.join_accepts_known", "Pypika.C14.custom_function_iff",
             "Pypika.C14.custom_function_no_params", "Pypika.C14.case_iff", "Pypika.C14.arity_guard", "Pypika.C14.once_only",
             "Pypika.C14.update_delete_iff", "Pypika.C14.conflict_handlers", "Pypika.C14.top_iff", "Pypika.C14.returning_iff", "Pypika.C14.returning_accepts_known",
             "Pypika.C14.reject_changes_nothing", "Pypika.C01.table_safe_partial",
             # concrete builder model (Builder.lean, tied call by call through harness/trace.py)
-            "Pypika.B.into_raises_iff", "Pypika.B.delete_raises_iff", "Pypika.B.update_raises_iff", "Pypika.B.select_str_raises_iff", "Pypika.B.mysql_handlers_exclusive", "Pypika.B.mysql_handlers_exclusive_rev", "Pypika.B.pg_handlers_exclusive", "Pypika.B.pg_handlers_exclusive_rev", "Pypika.B.top_raises_iff"]
+            "Pypika.B.into_raises_iff", "Pypika.B.delete_raises_iff", "Pypika.B.update_raises_iff", "Pypika.B.select_str_raises_iff", "Pypika.B.mysql_handlers_exclusive", "Pypika.B.mysql_handlers_exclusive_rev", "Pypika.B.pg_handlers_exclusive", "Pypika.B.pg_handlers_exclusive_rev", "Pypika.B.top_raises_iff",
+            # CREATE TABLE builder state machine (DDLBuilder.lean, tied call by call through harness/trace.py)
+            "Pypika.DDLB.create_table_once", "Pypika.DDLB.primary_key_once", "Pypika.DDLB.foreign_key_once", "Pypika.DDLB.columns_after_as_select", "Pypika.DDLB.as_select_after_columns", "Pypika.DDLB.vertica_local_needs_temporary", "Pypika.DDLB.vertica_preserve_needs_temporary"]
 AGREE = []
 TRUSTED = ["the scenario table below as the reading of 'documented situation' for each guard"]
 RULE = ("for every guard a family of scenarios generated on BOTH sides of the condition (rejecting inputs and their accepting "
